@@ -95,6 +95,18 @@ CHECKS = {
   ref="DESIGN.md §3 C16",
   note=CONN_NOTE + " Paired cases use determinate versions (an export cannot be restored into an object of undetermined version).",
   technique="Coq proofs of restore (refinement to the set spec via C20) + state-equality/determinism + paired-run differential monitor on two implementation objects"),
+ "C18": dict(
+  text="Coq theorems, Closed under the global context. (1) Obligations over tables REGENERATED from the compiled crate on every run: on all 756 cells "
+       "(14 locations x 27 identifiers x once/twice) the builder path and the parser path (bytes hand-encoded in the harness) both equal the "
+       "specification table written from MQTT v5.0 Table 2-4; constructor and parser accept exactly the values the specification allows on "
+       "the boundary values of every numeric property; none of the 229 unknown identifier bytes is accepted. (2) For property lists of ANY "
+       "length: a list is correctly placed iff every property is allowed at the location and every non-repeatable one occurs at most once; only "
+       "User Property (everywhere) and Subscription Identifier in PUBLISH repeat; value rules (non-zero Receive Maximum / Topic Alias / Maximum "
+       "Packet Size / Subscription Identifier, flags 0/1) for every value. Tie for longer lists: seeded random lists through builder and parser "
+       "vs the rule; monitor: builder and parser agree on every list.",
+  ref="DESIGN.md §3 C18",
+  note=NOTE_COMMON + " A broken table obligation is reported with the differing cells as the replay.",
+  technique="Coq proof over exhaustively regenerated tables (T-exh) + list-level theorem + differential correspondence on random property lists"),
  "C12": dict(
   text="Coq theorems, Closed under the global context, for every state and every M: the vacancy getter is M minus the counter saturating at "
        "zero (never wraps or panics); a QoS>0 PUBLISH arriving when the peer already has the announced maximum outstanding is answered "
